@@ -52,11 +52,12 @@ out = ['''(* C08: RISC-V code generation preserves AxCut semantics.
    both load modes); in the second half of this file (hand-written, after the marker FORWARD
    SIMULATION) the forward simulation of Model/Backend.code_statement against the linear machine
    for the integer fragment and closures without captured variables, up to the program level
-   (C08_codegen_simulates_int / _cf).  NOT proved: store/load of more than FIELDS_PER_BLOCK values
-   (chains of blocks) and the simulation of the heap statements (Let / Switch, closures with captured
-   variables), hence the composition `rv_codegen_correct` for all programs, which is therefore
-   only STATED below (a `Definition ... : Prop`) and proved for the fragment
-   (C08_rv_codegen_correct_partial).  The composition and `three_backends_agree` are
+   (C08_codegen_simulates_int / _cf), and (after the marker FORWARD SIMULATION, HEAP STATEMENTS) of the
+   heap statements Let / Switch / Create with captured variables / Invoke / Substitute on objects, for
+   objects of at most three fields (C08_codegen_simulates_partial).  NOT proved: store/load of more
+   than FIELDS_PER_BLOCK values (chains of blocks), hence the composition `rv_codegen_correct` for
+   all programs, which is therefore only STATED below (a `Definition ... : Prop`) and proved for
+   the fragments (C08_rv_codegen_correct_partial, C08_codegen_correct_linearized_partial).  The composition and `three_backends_agree` are
    checked by execution on every run (modelrun sem-rv): the Rust-emitted code is run on
    Sem/RVSem.v against Sem/AxSem.run_linear and against the x86-64 and AArch64 code of the same
    program on Sem/X86Sem.v and Sem/A64Sem.v. *)
